@@ -32,6 +32,7 @@ TextCells == {
   [id |-> "nv2", blank |-> FALSE],
   [id |-> "nv3", blank |-> FALSE],
   [id |-> "nv4", blank |-> FALSE],
+  [id |-> "spl", blank |-> FALSE],
   [id |-> "apA", blank |-> FALSE],
   [id |-> "apX", blank |-> FALSE],
   [id |-> "nvp", blank |-> FALSE],
@@ -47,6 +48,8 @@ AmtCells == {
   [id |-> "cur5", blank |-> FALSE, dot |-> [ok |-> TRUE, cents |-> 500], comma |-> [ok |-> TRUE, cents |-> 500]],
   [id |-> "pad", blank |-> FALSE, dot |-> [ok |-> TRUE, cents |-> 825], comma |-> [ok |-> TRUE, cents |-> 825]],
   [id |-> "sp", blank |-> FALSE, dot |-> [ok |-> TRUE, cents |-> 999], comma |-> [ok |-> TRUE, cents |-> 123400]],
+  [id |-> "k1", blank |-> FALSE, dot |-> [ok |-> TRUE, cents |-> 123400], comma |-> [ok |-> TRUE, cents |-> 123400]],
+  [id |-> "k2m", blank |-> FALSE, dot |-> [ok |-> TRUE, cents |-> -250000], comma |-> [ok |-> TRUE, cents |-> -250000]],
   [id |-> "zero", blank |-> FALSE, dot |-> [ok |-> TRUE, cents |-> 0], comma |-> [ok |-> TRUE, cents |-> 0]],
   [id |-> "zero2", blank |-> FALSE, dot |-> [ok |-> TRUE, cents |-> 0], comma |-> [ok |-> TRUE, cents |-> 0]],
   [id |-> "pzero", blank |-> FALSE, dot |-> [ok |-> TRUE, cents |-> 0], comma |-> [ok |-> TRUE, cents |-> 0]],
